@@ -202,6 +202,23 @@ PROPS = {
         "not_decided": ["'never hangs or loops forever' against a server that streams lines or nests directories without end (liveness relative to an adversarial peer)", "other sessions undisturbed: the frame conditions of C17"],
         "explanation": "",
     },
+    "C01": {
+        "modules": ["contracts.c01_transfer", "contracts.worker_units", "contracts.c15_throttle", "contracts.server_units"],
+        "unit_filter": ["AsyncStreamIterator.__anext__", "retr_worker@retr", "stor_worker@stor", "stor_worker@appe", "ThrottleStreamIO.read", "ThrottleStreamIO.write", "Server.rest#SEQ", "Server.appe#SEQ", "Server.stor#SEQ"],
+        "level": "proof",
+        "trusted_base": [T_PY, T_ENGINE, T_SOLVER, T_AIO, T_CONN, "abstract backend file (assumed contract): sequential access after an optional seek; 'wb' truncates, 'ab' appends whatever was seeked, 'r+b' keeps the content; a write at position p pads with zeros beyond the end (pyvc/backend.py:FileHandle)"],
+        "assumptions": [
+            "network segmentation and chunking are universally quantified by the read contract: reader.read(n) returns *some* non-empty prefix of what remains, of length <= n",
+            "SEQ: connection.restart_offset is stable while the worker runs (it is read lazily, three times, across suspension points)",
+        ],
+        "not_decided": [
+            "kernel/TCP delivering what was written (T-aio)",
+            "'every later download, stat or listing reflects the new content' beyond 'file and data stream closed before the completion reply' (backend visibility)",
+            "the client side (Client.upload / download copy loops, get_stream command order): not under contract yet",
+            "that MemoryPathIO / Python file objects satisfy the abstract file contract (see C18)",
+        ],
+        "explanation": "",
+    },
     "C06": {
         "modules": ["contracts.c06_framing"],
         "level": "proof",
